@@ -15,7 +15,7 @@ RULE = ('case = (input batch-size sequence, target size, #columns, container kin
         'streams pushed through TreeTransform apply/select/batch re-batching options; non-trivial = some input '
         'batch larger and some smaller than the target and total rows not a multiple of the target; distinct = '
         'distinct canonical case JSON'
-        '; also: 2-d array columns, row-dropping / row-duplicating batched functions, fn_batch_size == batch_size, runs of 63..150 tiny input batches, input batches compared before/after and re-batched a second time')
+        '; also: 2-d array columns, row-dropping / row-duplicating batched functions, fn_batch_size == batch_size, runs of 63..150 tiny input batches, input batches compared before/after and re-batched a second time, a pad value of 0')
 ASSUMPTIONS = [
     'cell value of row i column j is i*8+j so misalignment, loss, duplication and reordering are all visible',
     'all columns of an input batch have equal length (documented precondition: heterogeneous columns raise)',
@@ -37,7 +37,7 @@ def _mk(kind, vals):
 W2 = 500000
 
 
-def _rows(kind, col, what):
+def _rows(kind, col, what, pad=PAD):
   """-> the int row values of a column; for 2-d columns checks every row is still the whole vector (v, v + W2)."""
   if kind != 'array2d':
     return [int(x) for x in col]
@@ -45,7 +45,7 @@ def _rows(kind, col, what):
   out = []
   for r in col:
     a, b = int(r[0]), int(r[1])
-    check(b == a + W2 or (a == PAD and b == PAD), 'row-shape-changed', f'{what}: row {r.tolist()} is not an input row')
+    check(b == a + W2 or (a == pad and b == pad), 'row-shape-changed', f'{what}: row {r.tolist()} is not an input row')
     out.append(a)
   return out
 
@@ -94,7 +94,7 @@ def check_rebatched(outputs, total, target, ncols, kind, pad, what='rebatched_ar
     for j, c in enumerate(b):
       check(_kind_ok(kind, c), 'container-kind-changed',
             f'{what}: batch {bi} col {j} is {type(c).__name__}{getattr(c, "shape", "")}, input {kind}')
-      vals = _rows(kind, c, f'{what}: batch {bi} col {j}')
+      vals = _rows(kind, c, f'{what}: batch {bi} col {j}', PAD if pad is None else pad)
       want_vals = [rows[seen + i] * 8 + j for i in range(real)] + [pad] * (lens[0] - real)
       check(vals == want_vals, 'rows-not-conserved',
             f'{what}: batch {bi} col {j}: got {vals}, want {want_vals}')
@@ -125,7 +125,7 @@ def classify(sizes, target):
 def run_direct(case):
   from ml_metrics._src.utils import iter_utils  # pylint: disable=g-import-not-at-top
   sizes, target, ncols, kind = case['sizes'], case['target'], case['ncols'], case['kind']
-  pad = PAD if case['pad'] else None
+  pad = case.get('pad_value', PAD) if case['pad'] else None    # the pad value may be falsy (0)
   stream, total = build_stream(sizes, ncols, kind)
   kw = {}
   if case['num_columns']:
@@ -186,7 +186,7 @@ def strat_direct(tier):
       target = draw(st.sampled_from([max(1, sum(sizes) - 1), max(1, sum(sizes) // 2 + 1), 100, 16]))
     return {'sizes': sizes, 'target': target, 'ncols': draw(st.integers(1, 4)),
             'kind': draw(st.sampled_from(['list', 'tuple', 'array', 'array2d'])), 'pad': draw(st.booleans()),
-            'num_columns': draw(st.booleans()), 'again': draw(st.integers(0, 3)) == 0}
+            'num_columns': draw(st.booleans()), 'again': draw(st.integers(0, 3)) == 0, 'pad_value': draw(st.sampled_from([-1, -1, 0]))}
   return s()
 
 
